@@ -55,11 +55,19 @@ def enumerate_rule(ctx, name, max_len):
 
 
 def exact_float(text):
-    """correctly rounded value of a decimal literal, computed through exact rationals (independent of float()'s parser)."""
+    """correctly rounded value of a decimal literal, computed through exact rationals (independent of float()'s parser).
+    Exponents far outside the double range are decided without building the huge rational."""
+    body = text.lstrip("+-")
+    neg = text.startswith("-")
+    mant, _, exp = body.lower().partition("e")
+    if exp and abs(int(exp)) > 400 + len(mant):
+        zero = not mant.strip("0.")
+        val = 0.0 if (zero or int(exp) < 0) else float("inf")
+        return -val if neg else val
     try:
         return float(Fraction(text))
     except OverflowError:          # beyond the double range float() returns an infinity (it does not raise)
-        return float("-inf") if text.lstrip().startswith("-") else float("inf")
+        return float("-inf") if neg else float("inf")
 
 
 def split_complex(text):
@@ -75,7 +83,8 @@ def split_complex(text):
 
 
 def bounded_check(ctx, name):
-    strings, alphabet = enumerate_rule(ctx, name, MAXLEN)
+    maxlen = MAXLEN + 2 if ctx.tier == "thorough" else MAXLEN
+    strings, alphabet = enumerate_rule(ctx, name, maxlen)
     failures = []
     for s in strings:
         try:
@@ -100,7 +109,7 @@ def bounded_check(ctx, name):
             failures.append({"family": "literals/" + name, "class": type(e).__name__, "input": {"text": s}, "expected": "no exception",
                              "actual": "%s: %s" % (type(e).__name__, e), "repro": 'python -c "%s(%r)"' % ({"INT": "int", "FLOAT": "float", "COMPLEX": "complex"}[name], s)})
     ctx.bounded.append({"name": "literals/%s_converter" % name,
-                        "bound": "all strings of L(%s) of length <= %d over the representative characters %s" % (name, MAXLEN, "".join(alphabet)),
+                        "bound": "all strings of L(%s) of length <= %d over the representative characters %s" % (name, maxlen, "".join(alphabet)),
                         "cases": len(strings), "distinct": len(set(strings)),
                         "rule": "every enumerated text is fed to CPython's %s(); it must not raise and must return the exact decimal value "
                                 "(computed independently through fractions.Fraction)" % {"INT": "int", "FLOAT": "float", "COMPLEX": "complex"}[name],
@@ -144,6 +153,4 @@ def run(ctx):
     return g.obligations
 
 
-ASSUMPTIONS = ["A-cpython-literals: int()/float()/complex() accept the specified regular sets of decimal literals and return their "
-               "decimal value (correctly rounded for floats)",
-               "A-antlr-lexer: the runtime lexer is maximal munch over the ATN, first rule wins ties, skip drops the token"]
+ASSUMPTIONS = ["A-cpython-literals", "A-antlr-lexer"]
